@@ -54,7 +54,7 @@ func (c16) Runs(t Tier) int {
 }
 func (c16) RecordWidths() map[string]int { return nil }
 func (c16) RequiredProbes() []string {
-	return []string{"file-build", "symlink-build", "plain-dir-build", "sharded-dir-build", "auto-sharded-dir-build", "recursive-build", "recursive-rooted-at-file", "retry-after-transient-fault", "quick-builder", "fault-on-root-commit", "torn-write", "crash-between-child-and-parent", "enospc", "source-error", "multi-level-file", "nested-shards", "empty-file"}
+	return []string{"file-build", "symlink-build", "plain-dir-build", "sharded-dir-build", "auto-sharded-dir-build", "recursive-build", "recursive-rooted-at-file", "retry-after-transient-fault", "well-known-error-value", "quick-builder", "fault-on-root-commit", "torn-write", "crash-between-child-and-parent", "enospc", "source-error", "multi-level-file", "nested-shards", "empty-file"}
 }
 
 type c16Scenario struct {
@@ -67,9 +67,10 @@ type c16Scenario struct {
 }
 
 type wplan struct {
-	what  string // open | torn | commit | crash | enospc | source
-	k     int
-	after int
+	what    string // open | torn | commit | crash | enospc | source
+	k       int
+	after   int
+	flavour int // see flavourErr
 }
 
 func (p wplan) String() string {
@@ -83,7 +84,11 @@ func (p wplan) String() string {
 	case "source":
 		return fmt.Sprintf("source read error at byte %d", p.k)
 	}
-	return fmt.Sprintf("%s #%d fails", p.what, p.k)
+	s := fmt.Sprintf("%s #%d fails", p.what, p.k)
+	if p.flavour > 0 {
+		s += " with " + []string{"", "io.ErrUnexpectedEOF", "*fs.PathError{fs.ErrNotExist}", "wrapped context.DeadlineExceeded"}[p.flavour]
+	}
+	return s
 }
 
 // blockLinks parses the links of a stored block.
@@ -348,21 +353,21 @@ func (c16) Run(ts *tape.Set, tier Tier) *Result {
 			case "open":
 				st.WritePolicy = func(pt store.WritePoint, nth, _ int) *store.WriteFault {
 					if pt == store.WOpen && nth == p.k {
-						return &store.WriteFault{Kind: store.EIOOpen}
+						return &store.WriteFault{Kind: store.EIOOpen, Err: flavourErr(p.flavour, "w")}
 					}
 					return nil
 				}
 			case "torn":
 				st.WritePolicy = func(pt store.WritePoint, nth, _ int) *store.WriteFault {
 					if pt == store.WWrite && nth == p.k {
-						return &store.WriteFault{Kind: store.EIOMid, After: p.after}
+						return &store.WriteFault{Kind: store.EIOMid, After: p.after, Err: flavourErr(p.flavour, "w")}
 					}
 					return nil
 				}
 			case "commit":
 				st.WritePolicy = func(pt store.WritePoint, nth, _ int) *store.WriteFault {
 					if pt == store.WCommit && nth == p.k {
-						return &store.WriteFault{Kind: store.CommitFail}
+						return &store.WriteFault{Kind: store.CommitFail, Err: flavourErr(p.flavour, "w")}
 					}
 					return nil
 				}
@@ -559,6 +564,10 @@ func (c16) Run(ts *tape.Set, tier Tier) *Result {
 	}
 	for k := 0; k < steps[store.WOpen]; k += stride(steps[store.WOpen]) {
 		plans = append(plans, wplan{what: "open", k: k})
+		if k%2 == 1 || steps[store.WOpen] <= 3 {
+			// the same fault reported with a well-known error value
+			plans = append(plans, wplan{what: []string{"open", "commit", "torn"}[k%3], k: k, after: 2, flavour: 1 + k%3})
+		}
 	}
 	// always include the very last (root) block
 	plans = append(plans, wplan{what: "open", k: steps[store.WOpen] - 1})
@@ -615,6 +624,9 @@ func (c16) Run(ts *tape.Set, tier Tier) *Result {
 		fired := o.writeFaultsFired > 0 || o.srcFailed
 		if fired && sc.Blocks >= 2 {
 			res.NonTrivial = true
+		}
+		if fired && p.flavour > 0 {
+			res.probe("well-known-error-value")
 		}
 		switch p.what {
 		case "torn":
